@@ -130,6 +130,8 @@ def run(ctx):
     if not st["store_events"].get("true") or not st["store_events"].get("false"):
         raise vlib.ToolError("schedules never exercised both store outcomes: %s" % st["store_events"])
 
+    if not st["dial_timeout_scenarios"]:
+        ctx.notes.append("no backend with a full accept queue could be arranged: dial-timeout scenarios not run")
     recs = vlib.read_ndjson(ctx.path("trace.ndjson"))
     rejected, matched, tstates = ctx.validate_runs("PingCacheHist_Trace", recs, timeout=1500)
     for rj in rejected:
@@ -145,7 +147,8 @@ def run(ctx):
         elif ev == "fbegin":
             key = "second-fetch-in-flight"
         elif ev == "resolve":
-            key = "fallback:" + str(bad.get("result")) + (":requester-gone" if bad.get("kind") == "requester-gone" else "")
+            key = "fallback:" + str(bad.get("result")) + (":requester-gone" if bad.get("kind") == "requester-gone" else "") \
+                + (":after-dial-timeout" if bad.get("dial_timeout_backend") else "")
         else:
             key = "history-rejected:" + str(ev)
         kind = rj["run"][0].get("kind", "cache")
@@ -171,6 +174,7 @@ def run(ctx):
         "fallback_scenarios": st["resolves"],
         "fallback_answers": st["fallback_answers"],
         "requester_gone_scenarios": st["requester_gone_scenarios"],
+        "dial_timeout_scenarios": st["dial_timeout_scenarios"],
         "trace_events_validated": matched,
         "race_detector": not ctx.quick,
         "exhaustive": False,
